@@ -5,3 +5,27 @@ claim("C20",
       "Not covered: handlers that share state among themselves outside the message; user Handler implementations.",
       "SSA value-origin + CFG path rules (fresh-clone-per-hand-over, field-exhaustive deep copy, no back-channel)",
       "DESIGN.md section 4, C20")
+
+claim("C01",
+      "Whole property (eventual acknowledgement under all fault sequences) is a liveness claim against a broker and is NOT decided. Decided on all paths of the code: the hand-over points an accepted request passes through — accepted => enqueued (API -> pushTask closure with the API's own arguments), wake-up of the task goroutine cannot be lost, the task never discards a QoS>=1 request, a failed request's Retry handle is queued and the link recycled, every failure after the waiter was registered carries a retry handle, the handle re-issues this request on the client it is given, Retry() keeps the failed entry's continuation and everything unattempted, and the reconnect loop calls Retry() after every successful Connect. Each clause is a necessary condition: the fault sequence driving a violating path loses the request.",
+      "Not covered: that a reconnect eventually happens and the broker answers; Disconnect; process crash; behaviour of user callbacks / Transport.",
+      "CFG must-pass-through and edge-dominance rules over go/ssa with closure/cell value-origin resolution and QoS-specialised CFGs",
+      "DESIGN.md section 4, C01")
+
+claim("C02",
+      "Whole property (delivery count at a conforming broker for every cut sequence) needs a broker model and is NOT decided. Decided: the sender-side QoS 2 typestate MQTT 4.3.3 prescribes — after PUBREC every retry handle handed out is the PUBREL stage itself and no call path leads back to PUBLISH; Retry() re-queues exactly one continuation of the failed entry plus the entries not yet attempted (no duplicate, no loss) and executes nothing after the first failure; the PUBREL stage succeeds only through a PUBCOMP waiter created in that stage and registered under the message id in the signaller of the client written to.",
+      "Not covered: the receiver side at the broker, broker-side session loss, duplicates caused by colliding caller-chosen ids.",
+      "typestate over retry-handle values (SSA value origin), call-graph reachability from the PUBREL stage, symbolic decomposition of append chains in Retry()",
+      "DESIGN.md section 4, C02")
+
+claim("C07",
+      "Decided: the routing structure that makes a request complete only on its own acknowledgement, on every path: a fresh buffered waiter is registered under the packet's own id, in the signaller of the client written to and under its lock, before the request is written (7 request kinds); the chain serve-arm constant -> Parse type -> signaller look-up keyed by the parsed id -> non-blocking hand-over closes for the 7 acknowledgement kinds against the MQTT type table; every look-up deletes the entry it returns; nil-error returns are dominated by the receive from the registered waiter; Subscribe's success is dominated by count equality, the mismatch edge returns ErrInvalidSubAck and the copy-back uses one index on both sides.",
+      "Not covered: schedules of concurrent callers as such — reduced to consistent locking of the waiter maps (C10) and pairwise different ids of outstanding requests (C15).",
+      "CFG dominance + SSA value identity (waiter channel, id, signaller origin) + spec table cross-check",
+      "DESIGN.md section 4, C07")
+
+claim("C12",
+      "Decided: who may write the message and which handles can be handed out — Message.ID is stored only in publishImpl on the `ID == 0` edge from newID(); no other field of a caller-visible Message/Subscription is ever stored (zero-expected who-may-write rule with a positive control); Dup is set from the dup parameter on every path before Pack, Publish passes false and the retry handle true, and there are no other callers; the handle re-issues the enclosing call's own message; the deferred first transmission captures a complete private copy; after PUBREC no handle or call path leads back to PUBLISH; QoS 0 never yields a handle; Retry() re-queues without duplicates.",
+      "Not covered: byte equality of the retransmitted packet (follows from these facts plus C05, not separately decided); an application mutating its Message while a publish is in flight.",
+      "who-may-write over all FieldAddr stores of the package + edge dominance + handle value-origin typestate",
+      "DESIGN.md section 4, C12")
